@@ -244,13 +244,11 @@ func runCell(run *vk.Run, c cell) {
 		}
 		return m
 	}
-	var violOnce sync.Map
 	report := func(sub string, fields map[string]any, what string, wit map[string]any) {
 		fields["transport"] = strings.Join(c.Transports, "+")
 		fields["recovery"] = c.Recovery
 		run.Violation(vk.Violation{Sub: sub, Fields: fields, What: what, Witness: witness(wit)})
 	}
-	_ = violOnce
 
 	register := func(sock onEventer, rec *recorder, dir string, client int) {
 		for _, b := range bindings {
@@ -282,6 +280,30 @@ func runCell(run *vk.Run, c cell) {
 				return nil
 			})
 			sock.OnEvent(b.event, h.Interface())
+			// a second handler on the same event name: every registered handler is handed the same arguments
+			// (the decode step runs once per handler)
+			var shadowMu sync.Mutex
+			shadowSeen := map[int]int{}
+			h2 := reflect.MakeFunc(ft, func(args []reflect.Value) []reflect.Value {
+				uid := int(args[0].Int())
+				got := refcodec.Digest(gen.CanonOf(args[1].Interface()))
+				rec.mu.Lock()
+				em := rec.emitted[uid]
+				rec.mu.Unlock()
+				shadowMu.Lock()
+				shadowSeen[uid]++
+				n := shadowSeen[uid]
+				shadowMu.Unlock()
+				if em != nil && em.event == b.event && em.digest != got {
+					report("corruption", map[string]any{"dir": dir, "shape": b.shape.Name, "size_class": sizeClass(em.size), "handler": "second"},
+						fmt.Sprintf("uid %d (%s, size %d) arrived altered at the SECOND handler registered for %q", uid, b.shape.Name, em.size, b.event), map[string]any{"uid": uid, "emitted": trunc(em.digest), "received": trunc(got)})
+				}
+				if n == 2 {
+					report("duplicate", map[string]any{"dir": dir, "shape": b.shape.Name, "handler": "second"}, fmt.Sprintf("uid %d delivered twice to the second handler", uid), map[string]any{"uid": uid})
+				}
+				return nil
+			})
+			sock.OnEvent(b.event, h2.Interface())
 			for _, d := range b.decoy {
 				d := d
 				sock.OnEvent(d, reflect.MakeFunc(reflect.FuncOf(nil, nil, false), func([]reflect.Value) []reflect.Value {
